@@ -366,6 +366,15 @@ def _point(draw):
     else:
         pattern = draw(st.lists(st.integers(0, 1), min_size=T, max_size=T))
     choice = draw(st.lists(st.integers(0, 11), min_size=T, max_size=T))
+    if m["SDT"] and any(isinstance(x, list) for x in m.get("shut_prof", [])) and draw(st.integers(0, 2)) == 0:
+        # a shutdown inside the horizon that uses the upper edge of a profile band: on from the start (or from step 1
+        # when the unit was off), off for the last step(s)
+        first_on = 0 if m["tar"] > 0 or m["tao"] >= max(1, m["MD"]) or m["tao"] == 0 else min(T - 1, max(0, m["MD"] - m["tao"]))
+        run = max(1, m["MR"] + m["SRT"] + m["SDT"] - (m["tar"] if first_on == 0 else 0))
+        if first_on + run < T:
+            k = draw(st.integers(first_on + run, T - 1))
+            pattern = [1 if first_on <= t < k else 0 for t in range(T)]
+            choice = [1] * T
     return {"kind": "point", "grid": g, "prices": {"p0": [1.0] * T}, "assets": [a], "pattern": pattern, "choice": choice}
 
 
